@@ -3,6 +3,7 @@ import MlModel.Lemmas.PipeBatch
 import MlModel.Lemmas.PipeBuild
 import MlModel.Lemmas.PipeHeap
 import MlModel.Lemmas.PipeAligned
+import MlModel.Lemmas.PipeFnless
 import MlModel.Properties.C19
 /-!
 # C08 — pipeline operators route data exactly as a reference interpreter
@@ -922,5 +923,209 @@ example :
       .assign (.single (.dict [(.name "all", .self)])) (some exAssign.fn) 0 (.single (.name "a")) 0 0])
       = (none, 3) := by
   decide +kernel
+
+/-! ## operators without a function route every value unchanged (round 9)
+
+Vocabulary (`Model/PipeFnless.lean`):
+* `op.Fnless` — `select`, `apply` / `assign` without `fn`: `__post_init__` installed `_identity_fn`, no keyword
+  input keys;
+* `Impl.callAndRoute op s base ins` — what the code does with the selected values `ins` of one record:
+  `_maybe_call_fn` (→ `_identity_fn(*ins)`: the argument tuple as a tuple VALUE), `_normalize_outputs` (a tuple
+  result is several outputs; re-wrapped for `SELF`), `_get_outputs` (one key for several outputs: the whole tuple;
+  otherwise `zip(strict=True)`);
+* `Ref.routeValues base keys vals` — the specification, written without any call or tuple packing: as many keys as
+  values: value i, as it is, goes where key i says; ONE key for several values: the key receives their tuple;
+* `Ref.fnlessEvents` / `Ref.fnlessChain` — `routeValues` behind `getInputs`, lifted to streams and chains.
+The values are arbitrary `Val`s: tuples of length 0, 1, the number of keys, nested tuples, lists, `None`, dicts —
+nothing in the statements looks at them. -/
+
+/-- **C08_fnless_identity.**  For every operator without a function (`SELF` not the first of several output
+keys), every list of output keys of every form, every record the values are routed onto and EVERY list of selected
+values — tuples of every length included — calling `_identity_fn`, normalising its result and routing the outputs
+is exactly routing the values directly: the value stored under output key i is the value read under input key i
+(one key for several values: their tuple), and the function's state is untouched. -/
+theorem C08_fnless_identity (op : Op) (hf : op.Fnless) (hs : SelfAlone op) (s : Nat) (base : Val)
+    (ins : List Val) :
+    Impl.callAndRoute op s base ins = (liftErr (Ref.routeValues base op.outKeys ins), s) :=
+  callAndRoute_fnless op hf hs s base ins
+
+/-- the three packing steps, one by one, on the result of `_identity_fn`: the call returns the ARGUMENT TUPLE
+(whatever its elements are), `_normalize_outputs` takes exactly that tuple apart again (it never looks inside an
+element: a selected 1-tuple stays a 1-tuple), `_get_outputs` stores element i under key i -/
+theorem C08_fnless_packing (op : Op) (hf : op.Fnless) (hs : SelfAlone op) (s : Nat) (base : Val)
+    (ins : List Val) :
+    callFn op s ins = (.ok (.tuple ins), s) ∧
+    outputsOf (.tuple ins) = ins ∧
+    normalizeOutputs op (.tuple ins) = .ok (normOuts op (.tuple ins)) ∧
+    getOutputs op base (normOuts op (.tuple ins)) = Ref.routeValues base op.outKeys ins :=
+  ⟨callFn_fnless op hf s ins, rfl, normalizeOutputs_eq op _,
+   by rw [getOutputs_normOuts op hs, write_tuple]⟩
+
+/-- **C08_result_packing.**  The packing conventions for the result `v` of a USER function, written out (`SelfAlone`;
+`base`: the record for `assign`, `NullMap()` otherwise; `k` a plain key, not dict-form, for the whole-tuple case):
+1. a result that is not a tuple is ONE output: with one output key it is stored, as it is, under that key;
+2. a tuple result of length ≥ 2 with ONE output key: the key receives the whole tuple;
+3. a tuple result with as many output keys (≥ 2) as elements is unzipped: element i goes to key i;
+4. a tuple result of length 1 with one output key is ONE output: the ELEMENT is stored (a function that wants to
+   store a 1-tuple has to return it wrapped — which is exactly what `_identity_fn` does with the selected values);
+5. an empty tuple result with at least one output key raises `ValueError` (`zip(strict=True)`). -/
+theorem C08_result_packing (op : Op) (hs : SelfAlone op) (base : Val) :
+    (∀ v k, (∀ xs, v ≠ .tuple xs) → op.outKeys = [k] →
+      getOutputs op base (normOuts op v) = Ref.routeAll base [k] [v]) ∧
+    (∀ a b rest k, op.outKeys = [.key k] →
+      getOutputs op base (normOuts op (.tuple (a :: b :: rest))) = Ref.route base (.key k) (.tuple (a :: b :: rest))) ∧
+    (∀ xs k k' ks, op.outKeys = k :: k' :: ks →
+      getOutputs op base (normOuts op (.tuple xs)) = Ref.routeAll base (k :: k' :: ks) xs) ∧
+    (∀ x k, op.outKeys = [k] →
+      getOutputs op base (normOuts op (.tuple [x])) = Ref.routeAll base [k] [x]) ∧
+    (∀ k ks, op.outKeys = k :: ks →
+      getOutputs op base (normOuts op (.tuple [])) = .error .value) := by
+  refine ⟨?_, ?_, ?_, ?_, ?_⟩
+  · intro v k hv hk
+    rw [getOutputs_normOuts op hs]
+    have ho : outputsOf v = [v] := by
+      unfold outputsOf; split
+      · exact absurd rfl (hv _)
+      · rfl
+    simp [Ref.write, hk, ho]
+  · intro a b rest k hk
+    rw [getOutputs_normOuts op hs]
+    simp [Ref.write, hk]
+  · intro xs k k' ks hk
+    rw [getOutputs_normOuts op hs]
+    simp [Ref.write, hk]
+  · intro x k hk
+    rw [getOutputs_normOuts op hs]
+    simp [Ref.write, hk]
+  · intro k ks hk
+    rw [getOutputs_normOuts op hs]
+    cases ks <;> simp [Ref.write, hk, Ref.routeAll]
+
+/-- **C08_fnless_readback.**  Read-back on dict records: routing the values `vals` to as many distinct plain
+names (onto a dict record — `assign` — or into a new record — `select` / `apply`) succeeds and yields a dict in
+which name i reads EXACTLY `vals[i]` (no hypothesis on the values: `vals[i]` may be a tuple of length 0 / 1 / n);
+onto a dict record every other name reads as before. -/
+theorem C08_fnless_readback (names : List String) (vals : List Val) (hn : names.Nodup)
+    (hl : names.length = vals.length) :
+    (∀ kvs, ∃ kvs', Ref.routeValues (.dict kvs) (names.map fun n => OutKey.key (.name n)) vals = .ok (.dict kvs') ∧
+      (∀ i (h1 : i < names.length) (h2 : i < vals.length), lookup names[i] kvs' = some vals[i]) ∧
+      (∀ m, m ∉ names → lookup m kvs' = lookup m kvs)) ∧
+    (names ≠ [] → ∃ kvs', Ref.routeValues .null (names.map fun n => OutKey.key (.name n)) vals = .ok (.dict kvs') ∧
+      (∀ i (h1 : i < names.length) (h2 : i < vals.length), lookup names[i] kvs' = some vals[i]) ∧
+      (∀ m, m ∉ names → lookup m kvs' = none)) := by
+  have hrv : ∀ base, Ref.routeValues base (names.map fun n => OutKey.key (.name n)) vals
+      = Ref.routeAll base (names.map fun n => OutKey.key (.name n)) vals := by
+    intro base
+    unfold Ref.routeValues
+    rcases names with _ | ⟨n, _ | ⟨n', ns⟩⟩
+    · rfl
+    · rcases vals with _ | ⟨v, _ | ⟨v', vs⟩⟩
+      · rfl
+      · rfl
+      · simp at hl
+    · rfl
+  have hd : ∀ kvs, ∃ kvs', Ref.routeAll (.dict kvs) (names.map fun n => OutKey.key (.name n)) vals = .ok (.dict kvs') ∧
+      (∀ i (h1 : i < names.length) (h2 : i < vals.length), lookup names[i] kvs' = some vals[i]) ∧
+      (∀ m, m ∉ names → lookup m kvs' = lookup m kvs) := by
+    intro kvs
+    obtain ⟨k, hk⟩ := assignFlat_some kvs names vals hl
+    refine ⟨k, by rw [routeAll_flat, hk], assignFlat_values kvs names vals hn k hk, ?_⟩
+    exact (assignFlat_frame kvs names vals k hk).1
+  refine ⟨fun kvs => by rw [hrv]; exact hd kvs, fun hne => ?_⟩
+  rw [hrv, routeAll_null_names names vals hne]
+  obtain ⟨k, h1, h2, h3⟩ := hd []
+  exact ⟨k, h1, h2, fun m hm => by rw [h3 m hm]; rfl⟩
+
+/-- one plain name for several values: the name reads the tuple of the values, every other name as before -/
+theorem C08_fnless_readback_tuple (n : String) (a b : Val) (rest : List Val) (kvs : List (String × Val)) :
+    ∃ kvs', Ref.routeValues (.dict kvs) [.key (.name n)] (a :: b :: rest) = .ok (.dict kvs') ∧
+      lookup n kvs' = some (.tuple (a :: b :: rest)) ∧ (∀ m, m ≠ n → lookup m kvs' = lookup m kvs) := by
+  refine ⟨upsert n (.tuple (a :: b :: rest)) kvs, ?_, ?_, ?_⟩
+  · simp [Ref.routeValues, Ref.route, setKey, setPath_dict_name]
+  · rw [lookup_upsert]; simp
+  · intro m hm; rw [lookup_upsert]; simp [hm]
+
+/-- `SELF` as the FIRST OF SEVERAL output keys of an operator without a function (the builder rejects it for
+`assign` only): `_normalize_outputs` wraps the outputs into one, `zip(strict=True)` then raises — every record whose
+values can be read ends in `ValueError`, whatever the values.  (The counterpart of the hypothesis `SelfAlone` of
+`C08_fnless_identity`: together the two theorems cover every key list.) -/
+theorem C08_fnless_self_mixed_raises (op : Op) (hf : op.Fnless) (hm : selfMixedB op = true) (s : Nat)
+    (base : Val) (ins : List Val) :
+    Impl.callAndRoute op s base ins = (.error { kind := .value }, s) :=
+  callAndRoute_selfMixed op hf hm s base ins
+
+/-- **C08_fnless_stream.**  The reference of the refinement theorems (`Ref.opEvents`: `semCall` / `semWrite`, i.e.
+call + `outputsOf` + `Ref.write`), for an operator without a function, IS the direct specification
+`Ref.fnlessEvents` (read the values, `routeValues`), for every stream, both skipping modes, every state. -/
+theorem C08_fnless_stream (ignore : Bool) (op : Op) (hf : op.Fnless)
+    (hk : op.kind = .select ∨ op.kind = .apply ∨ op.kind = .assign) (s : Nat) (src : List (Ev Val)) :
+    Ref.opEvents ignore op s src = Ref.fnlessEvents ignore op src :=
+  opEvents_fnless ignore op hf hk s src
+
+/-- **C08_fnless_chain.**  What the caller of the real runner observes for a chain of un-batched `select`s and
+`apply`s / `assign`s without `fn` is the direct specification: every record's values, read under the input keys,
+stored unchanged under the output keys, operator after operator.  (Through `C08_refines_partial`; with skipping
+off `CleanRun` is vacuous.) -/
+theorem C08_fnless_chain (ignore : Bool) (ops : List Op) (hops : ∀ op ∈ ops, OpOK op)
+    (hf : ∀ op ∈ ops, op.Fnless ∧ (op.kind = .select ∨ op.kind = .apply ∨ op.kind = .assign))
+    (src : List (Ev Val)) (hc : Ref.CleanRun ignore ops src) :
+    ((Impl.run ignore ops src).out, (Impl.run ignore ops src).err)
+      = observe (Ref.fnlessChain ignore ops src) := by
+  rw [C08_refines_partial ignore ops hops src hc, chainEvents_fnless ignore ops hf]
+
+/-- **C08_fnless_chain_any_source.**  The same over ANY source and with NO `CleanRun` condition (through
+`C08_refines_assign_aligned_partial`, i.e. the repaired `processed_with_inputs`): for every chain of un-batched
+operators without functions in which `SELF` is never the first of several output keys, every finite stream of source
+outcomes — failing reads at any position, of any kind — and both skipping modes, what the caller of the real runner
+observes is `Ref.fnlessChainS`: every operator leaves out the skippable errors passed on to it and routes the values
+of every remaining record unchanged.  The hypotheses are properties of the KEY LISTS only; nothing is assumed of the
+values. -/
+theorem C08_fnless_chain_any_source (ignore : Bool) (ops : List Op)
+    (hf : ∀ op ∈ ops, op.Fnless ∧ (op.kind = .select ∨ op.kind = .apply ∨ op.kind = .assign))
+    (hb : ∀ op ∈ ops, (op.fnBatch = 0 ∧ op.batch = 0) ∧ SelfAlone op) (src : List (Ev Val)) :
+    ((Impl.run ignore ops src).out, (Impl.run ignore ops src).err)
+      = observe (Ref.fnlessChainS ignore ops src) := by
+  have hok : ∀ op ∈ ops, OpOK op := fun op hm => opOK_fnless op (hb op hm).1 (hb op hm).2 (hf op hm).2
+  rw [C08_refines_assign_aligned_partial ignore ops src (runOKA_of_opOK ignore ops hok src),
+    chainEventsS_fnless ignore ops hf]
+
+/-- **C08_fnless_batched.**  With batch sizes an operator without a function (first output key not `SELF`) only
+REGROUPS: the "calls" hand every group of columns on as it is (`callGroups` is the identity on the groups), so the
+output columns are the selected input columns regrouped to `fn_batch_size` and then to `batch_size` rows —
+whatever the rows are (a row that is a 1-tuple stays a 1-tuple). -/
+theorem C08_fnless_batched (ignore : Bool) (op : Op) (hf : op.Fnless) (hns : FirstNotSelf op) (s : Nat)
+    (src : List (Ev Val)) :
+    (∀ tail gs, Ref.callGroups ignore op tail s gs = (gs, tail)) ∧
+    Ref.batchedCols ignore op s src
+      = Ref.regroup op.batch op.outKeys.length
+          (Ref.regroup op.fnBatch op.inKeys.length
+            (observe (Ref.skipNT ignore (mapEv (fun r => liftErr (getInputs op r)) src)))) := by
+  refine ⟨fun tail gs => callGroups_fnless ignore op hf hns tail s gs, ?_⟩
+  simp only [Ref.batchedCols, callGroups_fnless ignore op hf hns]
+
+/-- non-vacuity + a test of the statement on the values of the seeded regression C08-m3: `select('a')`,
+`select(('a','b'), output_keys='x')`, `assign('y', input_keys='a')` on records whose values are tuples of length 1,
+0, 2 and a nested 1-tuple -/
+def exSelect (ins : List Key) (outs : List OutKey) (kind : OpKind := .select) : Op :=
+  { kind := kind, inKeys := ins, outKeys := outs, fn := identityFn }
+
+example : (exSelect [.name "a"] [.key (.name "a")]).Fnless ∧ SelfAlone (exSelect [.name "a"] [.key (.name "a")]) :=
+  ⟨⟨rfl, rfl⟩, fun k k' rest h => by simp [exSelect] at h⟩
+
+example :
+    (Impl.callAndRoute (exSelect [.name "a"] [.key (.name "a")]) 0 .null [.tuple [.int 5]]).1
+      = .ok (.dict [("a", .tuple [.int 5])]) ∧
+    (Impl.callAndRoute (exSelect [.name "a"] [.key (.name "a")]) 0 .null [.tuple []]).1
+      = .ok (.dict [("a", .tuple [])]) ∧
+    (Impl.callAndRoute (exSelect [.name "a"] [.key (.name "x")]) 0 .null [.tuple [.tuple [.int 7, .int 8]]]).1
+      = .ok (.dict [("x", .tuple [.tuple [.int 7, .int 8]])]) ∧
+    (Impl.callAndRoute (exSelect [.name "a", .name "b"] [.key (.name "x")]) 0 .null [.tuple [.int 5], .none]).1
+      = .ok (.dict [("x", .tuple [.tuple [.int 5], .none])]) ∧
+    (Impl.callAndRoute (exSelect [.name "a"] [.key (.name "y")] .assign) 0 (.dict [("a", .tuple [.int 5])])
+        [.tuple [.int 5]]).1
+      = .ok (.dict [("a", .tuple [.int 5]), ("y", .tuple [.int 5])]) ∧
+    (Impl.callAndRoute (exSelect [.self] [.key .self] .apply) 0 .null [.tuple [.int 5]]).1
+      = .ok (.tuple [.int 5]) :=
+  ⟨rfl, rfl, rfl, rfl, rfl, rfl⟩
 
 end MlModel.C08
